@@ -16,8 +16,8 @@ RULE = ("Triangulated surfaces: well-shaped (min angle >= 8 deg) closed (tetra/o
         "bordered (grids, cylinders, fans, strips, polygons; 1-3 splits, flips, edge splits, face deletions) surfaces and Delaunay "
         "disks (planar or with a height field), optionally midpoint-subdivided once or twice (<= 600 faces), orientation "
         "reversed, rigidly moved, uniformly scaled (0.05 / 1 / 20), with an unreferenced trailing vertex in 1/10 of the cases; x "
-        "state option (nothing cached / corner angles cached, which switches the cotangent formula) x a shuffled order of the "
-        "operator groups on one shared mesh object. On every mesh ALL options are swept: laplacian cotan/uniform/(vertex "
+        "state option (nothing cached / corner angles cached, which switches the cotangent formula) x neighbourhood sorting on/off x "
+        "a shuffled order of the operator groups on one shared mesh object (so cached area / cotan attributes are met in every order). On every mesh ALL options are swept: laplacian cotan/uniform/(vertex "
         "connection, order 1,2,4), gradient complex and real in SurfaceConnectionFaces (and FlatConnectionFaces on planar "
         "meshes) bases, three area mass matrices x inverse x sqrt x format, adjacency one/length/custom, vertex-edge operator "
         "oriented or not, vertex-face operator, graph laplacian, cotan_edge_diagonal inverse or not, laplacian_triangles and "
@@ -36,7 +36,14 @@ ASSUMPTIONS = ["surfaces are oriented manifold triangulations with min angle >= 
                "assembles it; equal to the graph Laplacian on closed surfaces only",
                "vertex_to_face_operator is read through the shape the code produces (|F| x |V|); only its content is checked",
                "cotan_edge_diagonal: only |entry| is compared (docstring has abs(), code does not)",
-               "FlatConnectionFaces is only used on meshes lying in the plane z=0"]
+               "FlatConnectionFaces is only used on meshes embedded without fold-over in the plane z=0",
+               "volume_laplacian: beyond symmetry / zero row sums, equality with the P1 tetrahedral stiffness matrix (the n-D cotan "
+               "formula the docstring cites) is asserted only on meshes whose dihedral angles are all <= 90 deg, because the code "
+               "takes |cot| of each dihedral angle (values on meshes with an obtuse dihedral angle are not asserted)",
+               "the connection Laplacian (laplacian(connection=SurfaceConnectionVertices)) is only checked to be Hermitian with the "
+               "moduli / diagonal of the scalar Laplacian; a failure to build the vertex connection is discarded, not reported",
+               "an unreferenced trailing vertex is in the domain of the |V|-sized operators (laplacian, graph operators, gradient); "
+               "mass matrices are not checked on such meshes (zero mass is outside 'positive diagonal')"]
 
 TOL = 1e-9
 FORMATS = ["csc", "csr", "coo", "lil", "dia"]
@@ -387,7 +394,6 @@ def fn_surface(case, ctx):
     total = float(areas.sum())
     N = R.tri_normals(Vn, F)
     K = R.stiffness(Vn, F)
-    scale = float(np.max(np.abs(Vn - Vn.mean(axis=0)))) or 1.0
 
     M.config.sort_neighborhoods = bool(case.get("sort", True))      # restored by the runner after the case
     ctx.label("sort=" + str(bool(case.get("sort", True))))
@@ -797,10 +803,10 @@ def self_test():
 
 
 SUBCHECKS = [
-    SubCheck("surface_operators", tri_case(), fn_surface, quick=3000, thorough=5000),
-    SubCheck("volume_operators", tet_case(), fn_volume, quick=1500, thorough=3000),
-    SubCheck("graph_operators", graph_case(), fn_graph, quick=3000, thorough=6000),
-    SubCheck("polygon_graph_operators", polygon_case(), fn_polygon, quick=1500, thorough=3000),
+    SubCheck("surface_operators", tri_case(), fn_surface, quick=3000, thorough=4000),
+    SubCheck("volume_operators", tet_case(), fn_volume, quick=1500, thorough=2500),
+    SubCheck("graph_operators", graph_case(), fn_graph, quick=3000, thorough=5000),
+    SubCheck("polygon_graph_operators", polygon_case(), fn_polygon, quick=1500, thorough=2500),
 ]
 
 MATCHERS = {}
